@@ -14,6 +14,18 @@ use std::hash::{BuildHasher, Hasher};
 thread_local! {
     static HASH_SEED: Cell<u64> = const { Cell::new(0) };
     static PROBES: RefCell<BTreeMap<&'static str, u64>> = const { RefCell::new(BTreeMap::new()) };
+    static CUR_TASK: Cell<usize> = const { Cell::new(0) };
+    static LAST: RefCell<BTreeMap<usize, Vec<&'static str>>> = const { RefCell::new(BTreeMap::new()) };
+}
+
+/// Tell the probes which simulated task is being polled.
+pub fn set_current_task(id: usize) {
+    CUR_TASK.with(|t| t.set(id));
+}
+
+/// The last few probes each task went through (for deadlock reports).
+pub fn take_last_probes() -> BTreeMap<usize, Vec<&'static str>> {
+    LAST.with(|l| std::mem::take(&mut *l.borrow_mut()))
 }
 
 /// Set the seed used by every `SeededState` created afterwards on this thread.
@@ -68,6 +80,15 @@ pub type HashMap<K, V> = std::collections::HashMap<K, V, SeededState>;
 /// Count one visit of a named branch.
 pub fn probe(name: &'static str) {
     PROBES.with(|p| *p.borrow_mut().entry(name).or_insert(0) += 1);
+    let t = CUR_TASK.with(|t| t.get());
+    LAST.with(|l| {
+        let mut l = l.borrow_mut();
+        let v = l.entry(t).or_default();
+        if v.len() >= 12 {
+            v.remove(0);
+        }
+        v.push(name);
+    });
 }
 
 /// Return and reset all probe counters of this thread.
